@@ -446,3 +446,17 @@ func ProgramText(t *rapid.T) (text []byte, kind string) {
 	out.WriteString("0000000000000000\ncleartomark\n/after 2 def\n")
 	return out.Bytes(), kind
 }
+
+// CMapModel generates one CMap model of moderate size.
+func CMapModel(t *rapid.T) *cmapref.CMap {
+	m := genCMap(t)
+	if len(m.Blocks) > 5 {
+		m.Blocks = m.Blocks[:5]
+	}
+	for k := range m.Blocks {
+		if len(m.Blocks[k].Entries) > 12 {
+			m.Blocks[k].Entries = m.Blocks[k].Entries[:12]
+		}
+	}
+	return m
+}
